@@ -336,7 +336,27 @@ class SInt:
             if not self.lin:
                 return o * self.c
             lo, hi = _mul_iv((self.lo, self.hi), (o.lo, o.hi))
-            return SInt(self.e * o.e, lo, hi)
+            # distribute: (sum a_i x_i + c)(sum b_j y_j + d); products x_i*y_j become atoms
+            lin = {}
+
+            def add(a, k):
+                n = lin.get(a, 0) + k
+                if n:
+                    lin[a] = n
+                else:
+                    lin.pop(a, None)
+            for a, ka in self.lin.items():
+                for b, kb in o.lin.items():
+                    x, y = (a, b) if a <= b else (b, a)
+                    add(_atom(ATOMS[x] * ATOMS[y]), ka * kb)
+                if o.c:
+                    add(a, ka * o.c)
+            if self.c:
+                for b, kb in o.lin.items():
+                    add(b, kb * self.c)
+            if not lin:
+                return self.c * o.c
+            return SInt(lin=lin, c=self.c * o.c, lo=lo, hi=hi)
         if isinstance(o, int):
             o = int(o)
             if o == 1:
@@ -374,9 +394,12 @@ class SInt:
         d = self._divmod_const(o)
         if self.lo is not None and self.hi is not None and 0 <= self.lo and self.hi < d:
             return self
-        if all(k % d == 0 for k in self.lin.values()):
+        # (sum k_i x_i + c) mod d == (sum (k_i mod d) x_i + c mod d) mod d
+        lin = {a: k % d for a, k in self.lin.items() if k % d}
+        if not lin:
             return self.c % d
-        return SInt(self.e % _iv_z3(d), 0, d - 1)
+        red = SInt(lin=lin, c=self.c % d)
+        return SInt(red.e % _iv_z3(d), 0, d - 1)
 
     def __rmod__(self, o):
         raise Unsupported('int % symbolic')
